@@ -68,6 +68,9 @@ type N struct {
 	Rot   int             `json:"rot"`   // rotation of the clauses (the default clause among them)
 	Ty    string          `json:"ty"`
 	M     string          `json:"m"` // method name of an unnamed-receiver call (tag, ptag)
+	Ok2   bool            `json:"ok2"` // chsel: the receive statement has the ok operand
+	HB    bool            `json:"hb"`  // chsel: the clause has a body
+	HD    bool            `json:"hd"`  // chsel: the select statement has a default clause
 }
 
 type Case struct {
@@ -1018,6 +1021,33 @@ func (r *rend) stmt(s *N) {
 		r.line("\tfmt.Println(\"c\", %d, cv)", s.ID)
 		r.line("default:")
 		r.line("\tfmt.Println(\"c\", %d, \"empty\")", s.ID)
+		r.line("}")
+	case "chsel":
+		dst := map[string]string{"var": s.X(), "fld": "t.a", "arr": arrName() + "[1]", "ptr": "*" + s.X(), "map": s.X() + "[2]"}[s.Form]
+		lhs := dst
+		r.line("{")
+		r.ind++
+		if s.Ok2 {
+			r.line("okv := false")
+			r.line("_ = okv")
+			lhs += ", okv"
+		}
+		r.line("select {")
+		r.line("case %s = <-%s:", lhs, s.S)
+		if s.HB {
+			r.line("\tfmt.Println(\"c\", %d, \"got\")", s.ID)
+		}
+		if s.HD {
+			r.line("default:")
+			r.line("\tfmt.Println(\"c\", %d, \"empty\")", s.ID)
+		}
+		r.line("}")
+		if s.Ok2 {
+			r.line("fmt.Println(\"c\", %d, %s, okv)", s.ID, dst)
+		} else {
+			r.line("fmt.Println(\"c\", %d, %s)", s.ID, dst)
+		}
+		r.ind--
 		r.line("}")
 	case "chclose":
 		r.line("close(%s)", s.S)
